@@ -693,7 +693,7 @@ func ruleP7(r *Run) {
 		}
 		if fd, _ := p.DeclOf(tr, "Transport.getConn"); fd != nil {
 			// the onExit literal: delete(trans.conns, key) and cancel()
-			del, cancel, guarded := false, false, false
+			del, cancel, guarded, cancelAlways := false, false, false, false
 			ast.Inspect(fd.Body, func(m ast.Node) bool {
 				fl, ok := m.(*ast.FuncLit)
 				if !ok {
@@ -723,6 +723,19 @@ func ruleP7(r *Run) {
 						if id, ok := ast.Unparen(c.Fun).(*ast.Ident); ok {
 							if v, ok := info.Uses[id].(*types.Var); ok && isNamed(v.Type(), "context", "CancelFunc") {
 								cancel = true
+								// not control-dependent on the pool-membership test: after Abort the connection is no longer in the pool
+								dep := false
+								for _, fc := range collectFacts(parents, c) {
+									ast.Inspect(fc.e, func(x ast.Node) bool {
+										if fv := fieldOf(info, exprOrNil(x)); fv != nil && fv.Name() == "conns" {
+											dep = true
+										}
+										return true
+									})
+								}
+								if !dep {
+									cancelAlways = true
+								}
 							}
 						}
 					}
@@ -731,6 +744,7 @@ func ruleP7(r *Run) {
 				return true
 			})
 			r.Check(del && cancel, tr+".Transport.getConn onExit removes the connection and cancels its loops", fd.Pos(), "delete(trans.conns, key); cancel()", "the connection's onExit no longer removes it from the pool and cancels its context: a dead connection is handed to later calls, or its goroutines never end")
+			r.Check(cancelAlways || !cancel, tr+".Transport.getConn onExit cancels whether or not the connection is still pooled", fd.Pos(), "cancel() outside the pool-membership test", "onExit cancels the connection's context only if the connection is still in the pool: Abort empties the pool before it closes the connections, so their Send loops are never cancelled - one goroutine leaks per aborted connection")
 			r.Check(guarded, tr+".Transport.getConn onExit removes only its own connection", fd.Pos(), "if trans.conns[key] == conn { delete }", "onExit deletes the pool entry without checking that it is still this connection: the second loop's exit removes a newer, healthy connection")
 		}
 		if fd, _ := p.DeclOf(tr, "conn.Close"); fd != nil {
